@@ -102,6 +102,10 @@ def use_table(tn):
     return _CUR[1]
 
 
+def _plain_map(am):
+    return [(a.index, a.token, [(x.index, x.token) for x in (a.attribution or [])]) for a in am]
+
+
 def check_decoder(w, table, r):
     s = "".join(w)
     r.evaluations += 1
@@ -135,6 +139,20 @@ def check_decoder(w, table, r):
     out, am = res
     if out != plain:
         r.violation("attribute-changes-translation", case, "decoder(%r)=%r but with attribute=True %r" % (s, plain, out))
+        return None
+    # the same clause next to the decoder's other flag: for a string of modern symbols compatible=True changes nothing,
+    # so string and map must equal the ones obtained without it
+    try:
+        res2 = _SF.decoder(s, compatible=True, attribute=True)
+        plain2 = _SF.decoder(s, compatible=True)
+    except Exception as e:
+        r.violation("decoder-raises:" + type(e).__name__, case, "with compatible=True: " + repr(e)[:200])
+        return None
+    if not (isinstance(res2, tuple) and len(res2) == 2) or res2[0] != plain2 or plain2 != plain or _plain_map(res2[1]) != _plain_map(am):
+        r.violation("attribute-changes-translation:compatible", case,
+                    "decoder(%r, compatible=True): plain %r, attributed %r (map equal to the one without the flag: %r)" % (
+                        s, plain2, res2[0] if isinstance(res2, tuple) else res2,
+                        isinstance(res2, tuple) and _plain_map(res2[1]) == _plain_map(am)))
         return None
     symbols = [t for t in w if t not in ("[nop]", ".")]
     ok = True
@@ -242,6 +260,20 @@ def check_encoder(smi, r):
     x, am = res
     if x != plain:
         r.violation("attribute-changes-translation", case, "encoder(%r)=%r but with attribute=True %r" % (smi, plain, x))
+        return None
+    # the same clause next to the encoder's other flag
+    try:
+        loose = _SF.encoder(smi, strict=False)
+        res2 = _SF.encoder(smi, strict=False, attribute=True)
+    except Exception as e:
+        r.violation("encoder-raises-with-attribute:" + type(e).__name__, case, "strict=False: " + repr(e)[:200])
+        return None
+    if not (isinstance(res2, tuple) and len(res2) == 2) or res2[0] != loose:
+        r.violation("attribute-changes-translation:strict=False", case,
+                    "encoder(%r, strict=False)=%r but with attribute=True %r" % (smi, loose, res2[0] if isinstance(res2, tuple) else res2))
+        return None
+    if loose == plain and _plain_map(res2[1]) != _plain_map(am):
+        r.violation("attribution-depends-on-strict", case, "encoder(%r): same string, different attribution maps with strict=True / False" % (smi,))
         return None
     toks = misc.tokenize(x)
     m = refmodel.decode(toks, RELAXED)
